@@ -79,12 +79,13 @@ inductive Node where
 
 /-- ancestors of `KnownDirectivesChecker` -/
 inductive Anc where
-  | op (kind : String) | field | spread | inline | fragDef
+  | op (kind : String) | field | spread | inline | fragDef | varDef
   deriving Repr, Inhabited
 
 def Anc.location : Anc → String
   | .op "mutation" => "MUTATION" | .op "subscription" => "SUBSCRIPTION" | .op _ => "QUERY"
   | .field => "FIELD" | .spread => "FRAGMENT_SPREAD" | .inline => "INLINE_FRAGMENT" | .fragDef => "FRAGMENT_DEFINITION"
+  | .varDef => "VARIABLE_DEFINITION"
 
 structure RS where
   /-- errors, newest first: the rule whose visitor instance holds the error -/
@@ -342,6 +343,7 @@ def enterRule (s : SchemaD) (fx : Fixes) (r : Rule) (n : Node) (ti : TI) (st : R
   | knownDirectives, .spread .. => ({ st with ancestors := .spread :: st.ancestors }, false)
   | knownDirectives, .inline .. => ({ st with ancestors := .inline :: st.ancestors }, false)
   | knownDirectives, .fragmentDef .. => ({ st with ancestors := .fragDef :: st.ancestors }, false)
+  | knownDirectives, .varDef _ => ({ st with ancestors := .varDef :: st.ancestors }, false)
   | knownDirectives, .directive d =>
     match findDirective s d.name with
     | none => (st.err r, false)
@@ -354,6 +356,7 @@ def enterRule (s : SchemaD) (fx : Fixes) (r : Rule) (n : Node) (ti : TI) (st : R
   | uniqueDirectivesPerLocation, .spread _ dirs => (st.errN r (dupCount [] (dirs.map (·.name))), false)
   | uniqueDirectivesPerLocation, .inline _ dirs => (st.errN r (dupCount [] (dirs.map (·.name))), false)
   | uniqueDirectivesPerLocation, .fragmentDef _ _ dirs => (st.errN r (dupCount [] (dirs.map (·.name))), false)
+  | uniqueDirectivesPerLocation, .varDef v => (st.errN r (dupCount [] (v.dirs.map (·.name))), false)
   | knownArgumentNames, .field _ args _ _ =>
     (match ti.field with
       | none => st
@@ -431,6 +434,7 @@ def leaveRule (s : SchemaD) (fx : Fixes) (r : Rule) (n : Node) (ti : TI) (st : R
   | knownDirectives, .spread .. => { st with ancestors := st.ancestors.drop 1 }
   | knownDirectives, .inline .. => { st with ancestors := st.ancestors.drop 1 }
   | knownDirectives, .fragmentDef .. => { st with ancestors := st.ancestors.drop 1 }
+  | knownDirectives, .varDef _ => { st with ancestors := st.ancestors.drop 1 }
   | providedRequiredArguments, .field _ args _ _ =>
     match ti.field with
     | none => st
